@@ -622,6 +622,9 @@ func shards(tier string) []string {
 	for k := 0; k < 8; k++ {
 		out = append(out, fmt.Sprintf("related/%d", k))
 	}
+	for ti := range tripleTargets {
+		out = append(out, fmt.Sprintf("aba/%d", ti))
+	}
 	return append(out, "two-modules/0", "two-modules/1", "two-modules/2", "two-modules/3")
 }
 
@@ -632,7 +635,7 @@ var relDeviates = []deviate{{Kind: "not-supported"}, {"replace", []prop{{"config
 var tripleTargets = []string{"l", "ll", "u1/gll", "ch", "c/cc/y"}
 
 func run(c *core.Ctx) {
-	c.Res.Bound = fmt.Sprintf("%d targets (leaf with default and units, plain leaf, mandatory leaf, bounded leaf-list, list, config-false container, nested leaves, choice with default, anydata, leaf / leaf-list / list inside one of two uses of a grouping, rpc input leaf, two missing targets, a leaf, a leaf-list and a nested leaf grafted by another module's augments) x every single deviate (not-supported, unknown kind, add/replace/delete x 18 single properties and 5 property pairs) and every ordered pair of deviates (thorough: every ordered triple of single-property deviates on 5 targets), plus the ignore-not-supported option; singles and pairs also with deviating modules that carry a revision and have a neighbour module whose name extends theirs; two deviating modules on the same and on different targets; every ordered pair (one module and two) and triple of deviation statements over %d related targets (a node, its children, its ancestors) x %d deviates", len(targets), len(relTargets), len(relDeviates))
+	c.Res.Bound = fmt.Sprintf("%d targets (leaf with default and units, plain leaf, mandatory leaf, bounded leaf-list, list, config-false container, nested leaves, choice with default, anydata, leaf / leaf-list / list inside one of two uses of a grouping, rpc input leaf, two missing targets, a leaf, a leaf-list and a nested leaf grafted by another module's augments) x every single deviate (not-supported, unknown kind, add/replace/delete x 18 single properties and 5 property pairs) and every ordered pair of deviates (on 5 targets every triple in which a kind comes back after another kind on one property; thorough: every ordered triple of single-property deviates on them), plus the ignore-not-supported option; singles and pairs also with deviating modules that carry a revision and have a neighbour module whose name extends theirs; two deviating modules on the same and on different targets; every ordered pair (one module and two) and triple of deviation statements over %d related targets (a node, its children, its ancestors) x %d deviates", len(targets), len(relTargets), len(relDeviates))
 	ds := deviates()
 	n := 0
 	var one func(in Input)
@@ -693,6 +696,30 @@ func run(c *core.Ctx) {
 			for _, d2 := range core3 {
 				for _, d3 := range core3 {
 					one(Input{Devs: []Deviation{{"d1", t, []deviate{d1, d2, d3}}}})
+				}
+			}
+		}
+		return
+	}
+	if parts[0] == "aba" {
+		// three deviate statements in one deviation in which a kind comes back after another kind,
+		// all on one property (add x, delete x, add y ...)
+		t := tripleTargets[a]
+		var core3 []deviate
+		for _, d := range ds {
+			if d.Kind != "not-supported" && d.Kind != "bogus" && len(d.Props) == 1 {
+				core3 = append(core3, d)
+			}
+		}
+		for _, d1 := range core3 {
+			for _, d2 := range core3 {
+				if d2.Kind == d1.Kind || d2.Props[0].K != d1.Props[0].K {
+					continue
+				}
+				for _, d3 := range core3 {
+					if d3.Kind == d1.Kind && d3.Props[0].K == d1.Props[0].K {
+						one(Input{Devs: []Deviation{{"d1", t, []deviate{d1, d2, d3}}}})
+					}
 				}
 			}
 		}
